@@ -14,9 +14,11 @@ CONSTANTS
   WithFail = FALSE
   WithInflight = TRUE
   WithSwap = TRUE
+  WithOvertake = FALSE
   WithRestart = TRUE
   AlterDbChecked = TRUE
   AlterIdxRecheck = TRUE
   DropGuarded = TRUE
   CreateFromDrop = TRUE
+  ProbeAfterDrop = TRUE
   TabT = {0}
